@@ -307,6 +307,42 @@ func (m *Monitor) reachable() map[int]bool {
 	return seen
 }
 
+// EdgesAfterRejectedAddInput is the one probe that looks past a structural rejection (the state
+// there is a recorded finding, K03: heights may be inverted and a closed cycle stays linked). What
+// a rejected MapN.AddInput must still not do is leave an edge only one side knows about: the
+// inputs the node declares (its own Parents()) and the inputs the graph has linked it to must
+// be the same multiset, or the linked-but-undeclared input can never be released again (C06).
+// Called by the history loops right before they stop at the rejection.
+func (m *Monitor) EdgesAfterRejectedAddInput(op Op, s Sample) {
+	e := m.E
+	if op.K != "AddInput" || (s.Class != "XLimit" && s.Class != "XCycle") || s.Crashed || m.Cyclic {
+		return
+	}
+	ref := e.Nodes[op.A]
+	decl, ok := ref.INode.(interface{ Parents() []incr.INode })
+	if !ok || !e.G.Has(ref.INode) {
+		return
+	}
+	count := func(ps []incr.INode) map[*incr.Node]int {
+		c := map[*incr.Node]int{}
+		for _, p := range ps {
+			c[p.Node()]++
+		}
+		return c
+	}
+	declared, linked := count(decl.Parents()), count(incr.ExpertNode(ref.INode).Parents())
+	same := len(declared) == len(linked)
+	for k, v := range declared {
+		if linked[k] != v {
+			same = false
+		}
+	}
+	if !same {
+		m.Findings = append(m.Findings, Finding{Prop: "C06", Kind: "rejected-addinput-one-sided-edge",
+			What: fmt.Sprintf("after %s was rejected (%s) n%d declares %d inputs but is linked to %d", op.String(), s.Class, op.A, len(decl.Parents()), len(incr.ExpertNode(ref.INode).Parents())), Op: len(e.Ops)})
+	}
+}
+
 // AfterOp evaluates the state oracles at an operation boundary.
 func (m *Monitor) AfterOp(op Op, s Sample) {
 	e := m.E
@@ -897,6 +933,7 @@ func Replay(maxHeight int, ops []Op) (e *Exec, m *Monitor, ok bool) {
 		m.BeforeOp(op)
 		s := e.Do(op)
 		m.AfterOp(op, s)
+		m.EdgesAfterRejectedAddInput(op, s)
 		if s.Crashed || m.Rejected || (m.Cyclic && len(m.Findings) > 0) {
 			// the state after a structural rejection (or of a cyclic program) is a recorded
 			// finding; later operations on it say nothing more (and can hang)
